@@ -178,3 +178,11 @@ def _f5_witness():
     a = pipelines.aero_outputs(pipelines.run_aero_point(half, flow), half)["fin"]["CL"]
     b = pipelines.aero_outputs(pipelines.run_aero_point(full, flow), full)["fin"]["CL"]
     return abs(a - b) > 1e-6 * abs(b)
+
+
+@witness("F7")
+def _f7_witness():
+    import numpy as np
+    from .oracles_struct import c07_wingbox_symmetry
+    from .core import rng_for
+    return bool(c07_wingbox_symmetry(rng_for("witness", "F7"), "quick"))
